@@ -93,11 +93,60 @@ def paths(extra=()):
         for e in exts:
             for variant in {e, e.upper(), e.capitalize()}:
                 out.append(f"{s}.{variant}" if e != "" else s)
+    # caseless / normalising mappings other than str.lower(): per extension one spelling per mapping in which a letter is replaced
+    # by a non-ASCII character that the mapping (and, for the 'lower' family, str.lower itself) sends onto it -- whatever notion of
+    # "same extension" an entry point uses, both entry points must use the same one
+    for e in exts:
+        for variant in _fold_variants(e):
+            out += [f"report.{variant}", f"d.d/N {variant}.{variant}"]
     # forms a path library would rewrite (trailing separators, '.' / '..' components, doubled separators, Windows separators,
     # surrounding blanks): the router works on the raw string, so must everything that claims to be the router
     for n in ("report.pdf", "Notes.DOCX", "bundle.tar.gz", "a.txt", "x.weird", "tool.exe", "noext", "a.c07m0"):
         out += [f"{n}/", f"{n}//", f"{n}/.", f"{n}/..", f"./{n}", f"d/../{n}", f"d//{n}", f"{n}/x", f"{n}\\", f"d\\{n}", f" {n} ", f"{n}?v=1", f"{n}#frag",
                 f"file:///tmp/{n}", f"~/{n}", f"{n}/./"]
+    return out
+
+
+_FOLDS = {}
+
+
+def _fold_table():
+    """{mapping name: {ASCII letter: first non-ASCII character the mapping sends onto exactly that letter}} computed from the
+    interpreter's Unicode database (lower, casefold, upper-then-lower, NFKC, NFKD without combining marks)"""
+    if _FOLDS:
+        return _FOLDS
+    import unicodedata
+    maps = {
+        "lower": str.lower,
+        "casefold": str.casefold,
+        "upper-lower": lambda c: c.upper().lower(),
+        "nfkc": lambda c: unicodedata.normalize("NFKC", c).lower(),
+        "nfkd-stripped": lambda c: "".join(x for x in unicodedata.normalize("NFKD", c) if not unicodedata.combining(x)).lower(),
+    }
+    letters = set("abcdefghijklmnopqrstuvwxyz0123456789")
+    for name in maps:
+        _FOLDS[name] = {}
+    for cp in range(0x80, 0x20000):
+        c = chr(cp)
+        for name, f in maps.items():
+            try:
+                t = f(c)
+            except Exception:  # noqa
+                continue
+            if t in letters and t not in _FOLDS[name]:
+                _FOLDS[name][t] = c
+    return _FOLDS
+
+
+def _fold_variants(ext):
+    out = []
+    for name, tab in _fold_table().items():
+        for i, ch in enumerate(ext.lower()):
+            if ch in tab:
+                v = ext[:i] + tab[ch] + ext[i + 1:]
+                if v not in out:
+                    out.append(v)
+                break
     return out
 
 
